@@ -94,6 +94,11 @@ def choose_fault(rng, ops, phm):
         wr = [o.k for o in ops if o.kind in ("WRITE", "OPEN_W")]
         if wr:
             return [{"from": rng.choice(wr), "kinds": ["WRITE", "OPEN_W"], "act": "fail", "errno": "ENOSPC"}], "class:disk-full"
+    if 0.22 <= r < 0.4:
+        nren = max(1, sum(1 for o in ops if o.kind == "RENAME" and o.cls() == "scratch"))
+        kind = rng.choice(["RENAME", "RENAME", "WRITE", "OPEN_W"])
+        return [{"from": 1, "kinds": [kind], "pre": "tmp/", "nth": rng.randrange(1, nren + 1), "act": "fail",
+                 "errno": rng.choice(["EXDEV", "EACCES", "EIO", "ENOSPC"])}], "class:%s" % kind
     if r < 0.22:
         # a stop request followed by a second one later in the same run
         ks = sorted(rng.sample(range(1, len(ops) + 1), 2)) if len(ops) >= 2 else [1, 1]
